@@ -10,6 +10,7 @@ import (
 	"bytes"
 	"context"
 	"crypto/sha256"
+	"encoding/binary"
 	"fmt"
 	"log/slog"
 	"strings"
@@ -17,6 +18,7 @@ import (
 	"time"
 
 	"github.com/ethereum/go-ethereum/log"
+	"github.com/ethereum/go-ethereum/p2p/enr"
 	"github.com/zen-eth/shisui/portalwire"
 	"verifharness/lib"
 	"verifharness/pnode"
@@ -174,5 +176,79 @@ func directedStaleTableRecord(r *lib.Run, idx int) {
 	if ok == 0 {
 		r.Violation("held-content-not-delivered:utp:stale-table-record", fmt.Sprintf("on a fault-free link none of %d large FINDCONTENT transfers was delivered to an asker (versions %v) whose older record in the responder's table says %v: %v", attempts, nowV, oldV, lastErr),
 			map[string]any{"asker_versions_now": nowV, "asker_versions_in_old_record": oldV, "last_error": fmt.Sprint(lastErr)})
+	}
+}
+
+// Directed pairing: the responder is configured the way portal/node.go configures a production node
+// (its version entry is the package's own default list, whatever that is), and the asker is a
+// version-0 client from before version negotiation: its record carries no version entry at all and it
+// reads the uTP stream as the raw content. It must end up with exactly the stored bytes.
+func directedLegacyAsker(r *lib.Run, idx int) {
+	rng := r.RNG("directed-legacy-asker", idx)
+	hub := pnode.NewHub()
+	st := pnode.NewKVStore()
+	R, err := hub.StartNode(pnode.NodeOpts{Key: pnode.NewKey(rng), Addr: pnode.Addr4(10, 8, 2, 1, 9000), Network: portalwire.History, ExtraEntries: []enr.Entry{portalwire.Versions},
+		Storage: st, MaxUtp: 50, RespTimeout: 2 * time.Second, VersionsTTL: time.Hour})
+	if err != nil {
+		r.FloorMiss("directed legacy asker: responder: %v", err)
+		return
+	}
+	defer R.Stop()
+	A, err := hub.StartAdversary(pnode.AdvOpts{Key: pnode.NewKey(rng), Addr: pnode.Addr4(10, 8, 2, 2, 9001), RespTimeout: 2 * time.Second, WithUtp: true})
+	if err != nil {
+		r.FloorMiss("directed legacy asker: asker: %v", err)
+		return
+	}
+	defer A.Stop()
+	R.Utp.VerifSetConnConfig(pnode.ShortUtpConfig())
+	A.Utp.VerifSetConnConfig(pnode.ShortUtpConfig())
+	ok := 0
+	var lastErr error
+	const attempts = 3
+	for a := 0; a < attempts; a++ {
+		key := make([]byte, 33)
+		rng.Read(key)
+		key[0] = 0
+		val := make([]byte, 3000+rng.Intn(30000))
+		rng.Read(val)
+		id := sha256.Sum256(key)
+		_ = st.Put(key, id[:], val)
+		msg := append([]byte{portalwire.FINDCONTENT}, append(binary.LittleEndian.AppendUint32(nil, 4), key...)...)
+		reply, err := A.Talk(R.Self(), string(portalwire.History), msg)
+		r.Eval(1)
+		if err != nil || len(reply) != 4 || reply[0] != portalwire.CONTENT || reply[1] != portalwire.ContentConnIdSelector {
+			lastErr = fmt.Errorf("reply %x: %v", reply, err)
+			continue
+		}
+		got, err := func() ([]byte, error) {
+			ctx, cancel := context.WithTimeout(context.Background(), 15*time.Second)
+			defer cancel()
+			conn, err := A.Utp.DialWithCid(ctx, R.Self(), binary.BigEndian.Uint16(reply[2:4]))
+			if err != nil {
+				return nil, err
+			}
+			defer conn.Close()
+			var data []byte
+			_, err = conn.ReadToEOF(ctx, &data)
+			return data, err
+		}()
+		if err != nil {
+			lastErr = err
+			continue
+		}
+		if !bytes.Equal(got, val) {
+			r.Violation("different-bytes:utp:version-0-asker-without-version-entry",
+				fmt.Sprintf("a version-0 asker whose record has no version entry read %d bytes from the announced stream; they differ from the %d stored bytes (the responder advertises the default list %v)", len(got), len(val), R.P.VerifCurrentVersions()),
+				map[string]any{"got_len": len(got), "stored_len": len(val), "got_head_hex": lib.HexShort(got, 16), "stored_head_hex": lib.HexShort(val, 16), "responder_versions": R.P.VerifCurrentVersions()})
+			return
+		}
+		ok++
+	}
+	r.Count("directed_legacy_asker_transfers", attempts)
+	r.Count("directed_legacy_asker_delivered", ok)
+	r.Distinct(fmt.Sprintf("directed-legacy-asker-%d", idx))
+	if ok == 0 {
+		r.Violation("held-content-not-delivered:utp:version-0-asker-without-version-entry", fmt.Sprintf("none of %d large FINDCONTENT transfers to a version-0 asker without version entry was delivered on a fault-free link: %v", attempts, lastErr),
+			map[string]any{"last_error": fmt.Sprint(lastErr)})
 	}
 }
